@@ -207,20 +207,21 @@ def obligations(tier: str) -> List[dict]:
             indent=True)
     else:
         for ind in (True, False):
+            add('h_roundtrip', 'roundtrip', 600, ['string-target'], n=1,
+                indent=ind)
             for s0 in range(len(SRC)):
                 for r0 in range(len(ROLES)):
-                    add('h_roundtrip', 'roundtrip', 3000, n=2, indent=ind,
+                    add('h_roundtrip', 'roundtrip', 1800, n=2, indent=ind,
                         t0_s=s0, t0_r=r0)
             for t0 in range(len(TGT)):
-                for t1 in range(len(TGT)):
-                    add('h_roundtrip', 'roundtrip', 3000, n=3, indent=ind,
-                        t0_t=t0, t1_t=t1, t0_r=0, t1_r=1, t2_r=2)
+                add('h_roundtrip', 'roundtrip', 1800, n=3, indent=ind,
+                    t0_t=t0, t0_r=0, t1_r=1, t2_r=2, t0_s=0, t1_s=1, t2_s=2)
         for k in range(len(CARET)):
             for s0 in range(len(SRC)):
-                add('h_spacing', 'spacing variants', 3000, ['ran'], caret=k,
-                    t0_s=s0, t1_s=1)
+                add('h_spacing', 'spacing variants', 1800, ['ran'], caret=k,
+                    t0_s=s0, t1_s=1, t0_r=1, t1_r=2)
         for ind in (True, False):
-            add('h_symbolic_string', 'symbolic quoted target', 3000,
+            add('h_symbolic_string', 'symbolic quoted target', 1800,
                 maxlen=3, indent=ind)
     return obs
 
